@@ -179,7 +179,11 @@ func (tp *TableParser) ParseTable(tbl tableXML) ParsedTable {
 	// Parse column widths from column definitions
 	parsed.ColWidths = tp.parseTableColumns(tbl.Columns)
 
-	// Parse rows
+	// Parse rows (header rows first: they open the table)
+	for _, row := range tbl.HeaderRows {
+		parsedRow := tp.parseRow(row)
+		parsed.Rows = append(parsed.Rows, parsedRow)
+	}
 	for _, row := range tbl.Rows {
 		parsedRow := tp.parseRow(row)
 		parsed.Rows = append(parsed.Rows, parsedRow)
